@@ -595,6 +595,26 @@ func (e *specEnv) call(s *SExpr) Val {
 			i.T, vc.intSort(), j.T, vc.intSort(),
 			vc.cmp("<=", vc.intLit(0), i.T, true), vc.cmp("<", i.T, j.T, true), vc.cmp("<", j.T, vc.slLen(sv), true),
 			vc.slArr(sv), i.T, vc.slArr(sv), j.T))
+	case "pointee_zero":
+		// pointee_zero(p): the object the pointer argument p refers to holds the zero value of its type
+		// (p is an interface-typed parameter; the static type is taken from the call site)
+		if len(args) != 1 || args[0].Op != "id" {
+			e.fail("pointee_zero(parameter)")
+		}
+		rv, ok := x.curRaw[args[0].Name]
+		if !ok {
+			e.fail("pointee_zero: %s is not a parameter of the call", args[0].Name)
+		}
+		t, _ := rv.GoT.(types.Type)
+		if t == nil {
+			e.fail("pointee_zero: untyped argument")
+		}
+		pt, isPtr := t.Underlying().(*types.Pointer)
+		if !isPtr {
+			return boolVal("true")
+		}
+		cur := x.deref(e.st, rv, pt.Elem())
+		return boolVal(eq(cur.T, x.vc.zero(cur.Sort)))
 	case "final":
 		// final(x): the value of the Go variable x at the return (parameters otherwise denote entry values)
 		if len(args) != 1 || args[0].Op != "id" {
